@@ -622,6 +622,17 @@ example : specOK exRepo false (repairIndex exRepo false).entries ["p1", "p2", "p
 example : trustedCorrect exRepo = true := by decide
 /-- the hypotheses of the theorems are satisfiable by this damaged state -/
 example : (exRepo.idxs.map (·.id)).Nodup ∧ (exRepo.packs.map (·.id)).Nodup := by decide
+/-- twin packs: two distinct, readable packs with an identical blob layout (two clients backing up
+    the same small file), described by two old index files. The de-duplication key of `Rewrite`
+    (`PackBlobsHash`) includes the pack ID, so both packs stay described — in the model by
+    `rewrite_exact` / `trusted_pack_kept` for every state; here the concrete instance. -/
+def twinRepo : Repo :=
+  { packs := [⟨"pA", 36 + 100 + 37, some [e1]⟩, ⟨"pB", 36 + 100 + 37, some [e1]⟩],
+    idxs := [⟨"i1", some [("pA", [e1])], false⟩, ⟨"i2", some [("pB", [e1])], false⟩] }
+example : (repairIndex twinRepo false).entries = [("pA", e1), ("pB", e1)] := by decide
+example : specOK twinRepo false (repairIndex twinRepo false).entries ["pA", "pB"] = true := by decide
+example : specOK twinRepo false [("pA", e1)] ["pA", "pB"] = false := by decide
+
 /-- the spec is not trivially true: leaving the old index untouched violates it -/
 example : specOK exRepo false [("p1", e1), ("p2", e3), ("gone", e2)] ["p1", "p2", "p3"] = false := by decide
 
